@@ -228,9 +228,9 @@ def rule_c12_r1(model: Model) -> RuleResult:
         return '?'
 
     writers: t.Dict[str, str] = {}
-    for n in wcfg.live_nodes():
-        if n.kind == 'return' and n.ast is not None and n.ast.value is not None:
-            writers[layout_of(wcfg, wnz, n)] = tagnorm(wnz.expr(n.ast.value, n))
+    from ..cfg import returned_values
+    for (val_e, n) in returned_values(wcfg):
+        writers[layout_of(wcfg, wnz, n)] = tagnorm(wnz.expr(val_e, n))
     conv = f"self.converters[self.tag_map[{TAGV}]].into_data(VAL)"
     expected_w = {
         'internal': conv,
